@@ -2431,7 +2431,8 @@ fn gen_op_w(r: &mut Rng, t: &mut Tracker, x: &Excl, ops: &mut Vec<Op>, depth: us
                         }
                         if !x.ignore_keeps_pending && r.chance(1, 2) {
                             // the class: "ignore" for a signal that is pending
-                            if let Some(s) = t.cur().pend.iter().next().copied() {
+                            // (never SIGCHLD: ignoring it is outside the model's domain)
+                            if let Some(s) = t.cur().pend.iter().copied().find(|s| *s != CHLD) {
                                 sig = s;
                                 d = Disp::Ignore;
                             }
